@@ -172,69 +172,191 @@ static std::string K(const std::string& calc, const std::string& kind, const std
   return "C19:" + calc + ":" + kind + ":" + what;
 }
 
+// ------------------------------------------------------------------------------------------------
+// Root-cause classes of the OPEN known findings (see reports/C19_open_findings.json). A difference is first matched
+// against these NARROW rules (calculator family + failure kind + which Db + exactly which columns / locator types);
+// whatever is not explained by a rule keeps the fine-grained key C19:<calc>:<kind>:<db>-<what>, so that a new defect
+// (a dropped _rollback, a forgotten _cleanVariableDb…) is never absorbed by a known key.
+// ------------------------------------------------------------------------------------------------
+static const char* K_D2  = "C19:D2:info-expansion-left-in-dbin";
+static const char* K_D4  = "C19:D4:anam-transform-columns-outside-bookkeeping";
+static const char* K_D5  = "C19:D5:anam-named-transform-sets-Z-before-running";
+static const char* K_D7  = "C19:D7:preexisting-SIMU-role-lost";
+static const char* K_D8  = "C19:D8:xvalid-varz-named-after-estimate";
+static const char* K_D9  = "C19:D9:postprocess-failure:output-roles-cleared";
+static const char* K_D10 = "C19:D10:simpgs-working-columns-left-on-error";
+static const char* K_D12 = "C19:D12:dgm-failure-leaves-X-roles-moved";
+
+static bool inSet(const std::string& x, std::initializer_list<const char*> l)
+{
+  for (auto* p : l)
+    if (x == p) return true;
+  return false;
+}
+// calculators deriving from ACalcInterpolator that take an input AND an output Db (information expansion possible)
+static bool famInterp(const std::string& c)
+{
+  return inSet(c, {"kriging", "test_neigh", "krigtest", "krigcell", "kribayes", "krigprof", "kriggam", "simtub-cond",
+                   "simbayes", "kriging-dgm", "simtub-dgm"});
+}
+static bool famAnam(const std::string& c)
+{
+  return inSet(c, {"rawToGaussianByLocator", "rawToGaussian", "gaussianToRaw", "normalScore", "rawToFactor",
+                   "ConditionalExpectation", "UniformConditioning", "DisjunctiveKriging"});
+}
+static bool famAnamNamed(const std::string& c) { return inSet(c, {"rawToGaussian", "gaussianToRaw", "normalScore"}); }
+static bool famSimu(const std::string& c) { return inSet(c, {"simtub-cond", "simtub-nc", "simbayes", "simfft", "simtub-dgm"}); }
+static bool famPgs(const std::string& c) { return inSet(c, {"simpgs-cond", "simpgs-nc"}); }
+static bool famDgm(const std::string& c) { return inSet(c, {"kriging-dgm", "simtub-dgm"}); }
+
+// context of the judgement in progress (set by judgeSuccess / judgeFailure)
+struct JudgeCtx
+{
+  const Expect* e = nullptr;
+  bool same       = false; // the input Db is the output Db
+  bool failure    = false; // the call reported a failure (or, for a call without return code, nothing may change)
+};
+static JudgeCtx g_j;
+
+static bool kindIsFailpoint(const std::string& kind, const char* site)
+{
+  return kind == std::string("failpoint=") + site; // depth 1 only: "@nested" kinds never match
+}
+
+// Emits the keys for a structured difference. `isOut`: this Db is the output Db of the call.
+// `successOut`: the success-path judgement of the output Db (extra columns and documented locator changes are judged
+// by the caller). Returns true when nothing was emitted.
+static bool emitDiff(Ctx& c, const std::string& oracle, const std::string& calc, const std::string& kind,
+                     const char* which, const c19::DiffFull& f, bool isOut, bool successOut)
+{
+  const Expect& e  = *g_j.e;
+  const bool fail  = g_j.failure;
+  const bool isIn  = std::string(which) == "dbin";
+  std::map<std::string, std::string> out; // key -> first witness
+  auto put = [&](const std::string& key, const std::string& detail) { out.emplace(key, detail); };
+  auto fine = [&](const std::string& what, const std::string& detail) { put(K(calc, kind, std::string(which) + "-" + what), detail); };
+  const int LX = ELoc::X.getValue(), LZ = ELoc::Z.getValue(), LF = ELoc::F.getValue(), LN = ELoc::NOSTAT.getValue(),
+            LS = ELoc::SIMU.getValue();
+
+  if (!f.presence.empty()) fine("db-presence", f.presence);
+  if (!f.nech.empty()) fine("nech", f.nech);
+  if (!f.order.empty()) fine("column-order", f.order);
+  if (!f.names.empty()) fine("names", f.names);
+  if (!f.values.empty()) fine("values", f.values);
+  if (!f.missing.empty()) fine("missing-columns", fmt("%d pre-existing column(s) disappeared: ", (int)f.missing.size()) + f.missing[0]);
+
+  // ---- extra columns ---------------------------------------------------------------------------
+  bool d2extra = false;
+  if (!successOut)
+  {
+    std::vector<const c19::ColSnap*> rest;
+    for (auto* p : f.extra)
+    {
+      std::string w = p->name + "[" + c19::locName(p->locType, p->locIdx) + "]";
+      // D2: ACalcInterpolator::_preprocess migrates the F / NOSTAT columns of the output grid into the input Db
+      // (NamingConvention "Migrate", locator F / NOSTAT) and nothing ever removes them: on every path, success included
+      if (isIn && !g_j.same && famInterp(calc) && (p->locType == LF || p->locType == LN) && p->name.rfind("Migrate", 0) == 0)
+      { put(K_D2, "column left in the input Db: " + w); d2extra = true; continue; }
+      // D10: simpgs error exit keeps its working columns (locators FACIES / GAUSFAC / SIMU / L / U / P)
+      if (fail && famPgs(calc) && p->locType >= 0 &&
+          inSet(c19::locTypeName(p->locType), {"FACIES", "GAUSFAC", "SIMU", "L", "U", "P"}))
+      { put(K_D10, std::string(which) + " keeps working column " + w); continue; }
+      // D12: DGM centring: temporary coordinate columns holding the X roles
+      if (fail && isIn && famDgm(calc) && p->locType == LX)
+      { put(K_D12, "temporary coordinate column left: " + w); continue; }
+      rest.push_back(p);
+    }
+    // D4: CalcAnamTransform creates its output columns outside the bookkeeping: after a failure injected after
+    // _preprocess / _run / _postprocess exactly the documented number of output columns stays behind
+    if (!rest.empty() && fail && isIn && famAnam(calc) && (int)rest.size() == e.newOut &&
+        (kindIsFailpoint(kind, "calc.after_preprocess") || kindIsFailpoint(kind, "calc.after_run") ||
+         kindIsFailpoint(kind, "calc.after_postprocess")))
+    {
+      put(K_D4, fmt("%d output column(s) left after the failure, first: ", (int)rest.size()) + rest[0]->name);
+      rest.clear();
+    }
+    if (!rest.empty())
+    {
+      std::string w;
+      for (size_t i = 0; i < rest.size() && i < 6; i++) w += (i ? "," : "") + rest[i]->name + "[" + c19::locName(rest[i]->locType, rest[i]->locIdx) + "]";
+      fine("extra-columns", fmt("%d column(s) that did not exist before: ", (int)rest.size()) + w);
+    }
+  }
+
+  // ---- locators of pre-existing columns -------------------------------------------------------------
+  bool d12loc = false;
+  for (auto& l : f.loc)
+  {
+    std::string w = "column '" + l.name + "' locator " + c19::locName(l.fromType, l.fromIdx) + " -> " + c19::locName(l.toType, l.toIdx);
+    bool lost = l.toType < 0;
+    if (successOut)
+    {
+      // documented / not asserted on the success path of the output Db (see Expect)
+      bool allowed = e.flagLocator && l.fromType == e.outLoc && lost;
+      if (std::find(e.anyLoc.begin(), e.anyLoc.end(), l.fromType) != e.anyLoc.end()) allowed = true;
+      if (l.fromType < 0 && std::find(e.anyLoc.begin(), e.anyLoc.end(), l.toType) != e.anyLoc.end()) allowed = true;
+      if (lost && std::find(e.alsoLose.begin(), e.alsoLose.end(), l.fromType) != e.alsoLose.end()) allowed = true;
+      if (allowed) continue;
+    }
+    // D2: the migrated F columns take the F ranks of the F columns the input Db already had
+    if (isIn && !g_j.same && famInterp(calc) && d2extra && l.fromType == LF) { put(K_D2, w); continue; }
+    // D5: AAnam::rawToGaussian / gaussianToRaw / normalScore make the named variable THE Z variable before running
+    if (fail && famAnamNamed(calc) && (l.fromType == LZ || (l.fromType < 0 && l.toType == LZ))) { put(K_D5, w); continue; }
+    // D7: working SIMU columns are created at ranks 1.. : a pre-existing SIMU column loses its role for good
+    if (famSimu(calc) && l.fromType == LS) { put(K_D7, std::string(which) + ": " + w); continue; }
+    // D9: failure injected after _postprocess: the roles cleared by the naming convention are not restored
+    if (fail && kindIsFailpoint(kind, "calc.after_postprocess") && isOut && lost && e.flagLocator &&
+        (l.fromType == e.outLoc || std::find(e.alsoLose.begin(), e.alsoLose.end(), l.fromType) != e.alsoLose.end()))
+    { put(K_D9, w); continue; }
+    // D12: DGM centring: the X roles moved to the temporary coordinates are not given back on failure
+    if (fail && isIn && famDgm(calc) && l.fromType == LX) { put(K_D12, w); d12loc = true; continue; }
+    std::string t = l.fromType >= 0 ? c19::locTypeName(l.fromType) : "none-to-" + c19::locTypeName(l.toType);
+    fine("locators:" + t, w);
+  }
+  if (!f.grid.empty())
+  {
+    if (d12loc && f.ndimShrunk) put(K_D12, "the input Db has lost its coordinates: " + f.grid);
+    else fine("grid", f.grid);
+  }
+  if (!f.roleTable.empty()) fine("role-table:" + f.roleTableLoc, f.roleTable);
+
+  for (auto& kv : out) c.truth(oracle, kv.first, false, kv.second);
+  return out.empty();
+}
+
 // failure (or no-output call): a Db must equal its snapshot. Returns true when clean.
 static bool checkUntouched(Ctx& c, const std::string& oracle, const std::string& calc, const std::string& kind,
                            const char* which, const DbSnap& a, const DbSnap& b)
 {
   if (!a.valid && !b.valid) return true;
-  c19::Diff d = c19::diff(a, b);
-  if (d.empty())
+  c19::DiffFull f = c19::diffFull(a, b);
+  bool isOut      = std::string(which) == "dbout" || g_j.same;
+  if (f.empty() || emitDiff(c, oracle, calc, kind, which, f, isOut, false))
   {
     c.truth(oracle, K(calc, kind, std::string(which) + "-changed"), true);
     std::string sc = c19::selfCheck(b);
     c.truth("selfcheck", K(calc, kind, std::string(which) + "-inconsistent"), sc.empty(), sc);
     if (c19::uidSlotsGrew(a, b) > 0) c.probe("diag.dead-uid-slots-left");
-    return true;
-  }
-  for (auto& it : d)
-  {
-    std::string what = std::string(which) + "-" + it.what + (it.loc.empty() ? "" : ":" + it.loc);
-    c.truth(oracle, K(calc, kind, what), false, it.detail);
+    return f.empty();
   }
   return false;
 }
 
 // success: pre-existing content of the OUTPUT Db. Returns the new columns.
+// Locators of pre-existing columns. Documented (include/Basic/NamingConvention.hpp):
+//   "flag_locator When TRUE, the output variables receive a 'locator'"
+//   "locatorOutType Type of locator assigned to the output variables"
+//   "cleanSameLocator When TRUE and if 'flag_locator' is TRUE, all variables assigned to the same locator are
+//    cancelled beforehand"
+// => with flag_locator (and the default cleanSameLocator=true, the only one generated) a pre-existing column whose
+//    locator type is locatorOutType may LOSE its locator; nothing else may change. Without flag_locator nothing may.
 static std::vector<const c19::ColSnap*> checkSuccessOut(Ctx& c, const std::string& calc, const std::string& kind,
                                                         const Expect& e, const DbSnap& a, const DbSnap& b)
 {
   const std::string oracle = "success-dbout-preexisting";
-  bool clean               = true;
-  c19::Diff d              = c19::diff(a, b);
-  for (auto& it : d)
-  {
-    if (it.what == "extra-columns") continue; // judged below against the documented outputs
-    if (it.what == "locators" || it.what == "role-table") continue; // judged column by column below
-    clean = false;
-    c.truth(oracle, K(calc, kind, "dbout-" + it.what), false, it.detail);
-  }
-  // Locators of pre-existing columns. Documented (include/Basic/NamingConvention.hpp):
-  //   "flag_locator When TRUE, the output variables receive a 'locator'"
-  //   "locatorOutType Type of locator assigned to the output variables"
-  //   "cleanSameLocator When TRUE and if 'flag_locator' is TRUE, all variables assigned to the same locator are
-  //    cancelled beforehand"
-  // => with flag_locator (and the default cleanSameLocator=true, the only one generated) a pre-existing column whose
-  //    locator type is locatorOutType may LOSE its locator; nothing else may change. Without flag_locator nothing may.
-  std::set<std::string> seen;
-  for (auto& ca : a.cols)
-  {
-    int j = b.colOfUid(ca.uid);
-    if (j < 0) continue;
-    const c19::ColSnap& cb = b.cols[j];
-    if (ca.locType == cb.locType && ca.locIdx == cb.locIdx) continue;
-    bool allowed = e.flagLocator && ca.locType == e.outLoc && cb.locType < 0;
-    if (std::find(e.anyLoc.begin(), e.anyLoc.end(), ca.locType) != e.anyLoc.end()) allowed = true;
-    if (ca.locType < 0 && std::find(e.anyLoc.begin(), e.anyLoc.end(), cb.locType) != e.anyLoc.end()) allowed = true;
-    if (cb.locType < 0 && std::find(e.alsoLose.begin(), e.alsoLose.end(), ca.locType) != e.alsoLose.end()) allowed = true;
-    if (allowed) continue;
-    std::string t = ca.locType >= 0 ? c19::locTypeName(ca.locType) : "none-to-" + c19::locTypeName(cb.locType);
-    if (seen.count(t)) continue;
-    seen.insert(t);
-    clean = false;
-    c.truth(oracle, K(calc, kind, "dbout-locators:" + t), false,
-            "column '" + ca.name + "' locator " + c19::locName(ca.locType, ca.locIdx) + " -> " +
-              c19::locName(cb.locType, cb.locIdx));
-  }
+  c19::DiffFull f          = c19::diffFull(a, b);
+  f.roleTable.clear(); // explained by the locator changes judged column by column
+  bool clean = emitDiff(c, oracle, calc, kind, "dbout", f, true, true);
   if (clean) c.truth(oracle, K(calc, kind, "dbout-changed"), true);
   std::string sc = c19::selfCheck(b);
   c.truth("selfcheck", K(calc, kind, "dbout-inconsistent"), sc.empty(), sc);
@@ -249,14 +371,19 @@ static std::vector<const c19::ColSnap*> checkSuccessOut(Ctx& c, const std::strin
     if ((int)nc.size() == e.newOut)
       for (auto& q : e.qual)
       {
-        int n = 0;
+        int n = 0, both = 0;
         for (auto* p : nc)
-          if (p->name.find(q.first) != std::string::npos) n++;
-        c.truth("success-new-columns", K(calc, kind, "dbout-new-column-qualifier:" + q.first), n == q.second,
+          if (p->name.find(q.first) != std::string::npos)
+          {
+            n++;
+            if (p->name.find("varz") != std::string::npos) both++;
+          }
+        std::string key = K(calc, kind, "dbout-new-column-qualifier:" + q.first);
+        // D8: xvalid renames the varz column AFTER the estimate took the Z role: its name is built from the estimate's
+        if (calc == "xvalid" && (q.first == "estim" || q.first == "esterr") && both > 0 && n == q.second + both) key = K_D8;
+        c.truth("success-new-columns", key, n == q.second,
                 fmt("names containing '%s': got %d want %d: ", q.first.c_str(), n, q.second) + names);
       }
-    // a new column that kept the default name of Db::addColumnsByConstant ("New", "New-1"…) was never named by the
-    // calculator: a temporary that survived
     if (!e.flagLocator)
     {
       for (auto* p : nc)
@@ -306,6 +433,7 @@ static void rerunAfterFailure(Ctx& c, const Scen& s, World& w, const std::string
 {
   if (!haveFresh) return;
   Outcome o = runCall(w, s.valid, "", 0, false);
+  g_j = JudgeCtx{&s.valid.exp, w.same, true};
   if (s.valid.exp.noRc)
   {
     bool a = checkUntouched(c, "rerun-after-failure", s.calc, kind + ":rerun", "dbin", o.in0, o.in1);
@@ -326,6 +454,7 @@ static void rerunAfterFailure(Ctx& c, const Scen& s, World& w, const std::string
 static void judgeFailure(Ctx& c, const Scen& s, World& w, const Call& call, const Outcome& o, const std::string& kind,
                          uint64_t freshDigest, bool haveFresh)
 {
+  g_j = JudgeCtx{&call.exp, w.same, true};
   bool cleanIn  = checkUntouched(c, "fail-dbin-untouched", s.calc, kind, "dbin", o.in0, o.in1);
   bool cleanOut = true;
   if (!w.same) cleanOut = checkUntouched(c, "fail-dbout-untouched", s.calc, kind, "dbout", o.out0, o.out1);
@@ -334,6 +463,7 @@ static void judgeFailure(Ctx& c, const Scen& s, World& w, const Call& call, cons
 
 static void judgeSuccess(Ctx& c, const Scen& s, World& w, const Call& call, const Outcome& o, const std::string& kind)
 {
+  g_j = JudgeCtx{&call.exp, w.same, call.exp.noRc};
   if (call.exp.noRc)
   {
     checkUntouched(c, "norc-dbin-untouched", s.calc, kind, "dbin", o.in0, o.in1);
